@@ -104,15 +104,17 @@ def build_universe(repo, msgs=None, dialect='cur'):
         if m['conn'] not in names:
             names[m['conn']] = letters.word(len(names), caps=True)
 
-        def trip(oid):
+        def trip(oid, declared=None):
             o = ref.latest(oid)
+            if o is None:
+                return (declared, oid, None)       # an id the history never created: stays unresolved
             return (o.type, oid, o.index)
         v = RefMsg()
         v.conn = names[m['conn']]
         v.index = n
         v.t_us = m['t_us']
         v.name = m['name']
-        v.obj = trip(m['id'])
+        v.obj = trip(m['id'], m['iface'])
         v.news = []
         v.destroyed = None
         decl = None
